@@ -34,6 +34,7 @@ import (
 	"github.com/lestrrat-go/jwx/v2/jwt"
 	"github.com/nuts-foundation/nuts-node/audit"
 	"github.com/nuts-foundation/nuts-node/core"
+	nutsCrypto "github.com/nuts-foundation/nuts-node/crypto"
 	"github.com/nuts-foundation/nuts-node/http/log"
 	"github.com/sirupsen/logrus"
 )
@@ -147,6 +148,12 @@ func (m middlewareImpl) checkConnectionAuthorization(context echo.Context, next 
 			continue
 		}
 
+		// The JOSE library infers the candidate algorithms from the key type only (any ES* algorithm for any EC key):
+		// make sure the algorithm of the token fits the key that verified it (e.g. no ES256 with a P-384 key).
+		if err := algorithmFitsKey(credential, authorizedKey); err != nil {
+			return unauthorizedError(context, fmt.Errorf("insecure credential: %w", err))
+		}
+
 		// The JWT was indeed signed by this authorized key, but that is not enough to authorize the request.
 		// Attempt to validate the parameters of the JWT, which ensures the audience, issued at, expiration, etc.
 		// are valid.
@@ -172,6 +179,19 @@ func (m middlewareImpl) checkConnectionAuthorization(context echo.Context, next 
 
 	// No authorized keys were able to verify the JWT, so this is an unauthorized request
 	return unauthorizedError(context, errors.New("credential not signed by an authorized key"))
+}
+
+// algorithmFitsKey returns an error if the signature algorithm of the credential does not belong to the type and curve of the authorized key
+func algorithmFitsKey(credential string, authKey authorizedKey) error {
+	_, alg, err := nutsCrypto.JWTKidAlg(credential)
+	if err != nil {
+		return err
+	}
+	publicKey, err := cryptoPublicKey(authKey.key)
+	if err != nil {
+		return err
+	}
+	return nutsCrypto.CheckAlgorithmFitsKey(alg, publicKey)
 }
 
 // accessGranted allows a connection to be handled
